@@ -30,7 +30,8 @@ ColSets == <<<<>>, <<N_p1, N_p2d5>>, <<N_q0d1, N_q0d9>>, <<N_e0, N_e1, N_e2>>, <
              <<N_x, N_time, N_cdf, N_threshold, N_quantile>>>>       \* 11: other score columns named like the NetCDF layout's own variables                       \* 10: quantile levels 0 and 1                  \* 9: four thresholds, listed in an order that is neither ascending nor descending
 Base == [timefmt |-> "unixtime", leadname |-> N_leadtime, hasLead |-> TRUE, idname |-> N_location, elevname |-> N_altitude,
          hasElev |-> TRUE, latlon |-> TRUE, hasObs |-> TRUE, hasFcst |-> TRUE, hasPit |-> FALSE, colset |-> 1,
-         colorder |-> "id", roworder |-> "id", absent |-> {}, misscells |-> {}, misstok |-> "-999", meta |-> 0]
+         colorder |-> "id", roworder |-> "id", absent |-> {}, misscells |-> {}, misstok |-> "-999", meta |-> 0,
+         hasId |-> TRUE, sites |-> "far"]
 Base2 == [Base EXCEPT !.timefmt = "datehour", !.leadname = N_offset, !.idname = N_id, !.elevname = N_elev, !.hasPit = TRUE,
                       !.colset = 5, !.colorder = "rot", !.roworder = "rev", !.absent = {2, 7}, !.misscells = {<<1, "obs">>, <<3, "x">>},
                       !.misstok = "abc", !.meta = 2]
@@ -39,7 +40,8 @@ Options == [timefmt |-> {"unixtime", "date", "datehour"}, leadname |-> {N_leadti
             hasObs |-> BOOLEAN, hasFcst |-> BOOLEAN, hasPit |-> BOOLEAN, colset |-> 1..11, colorder |-> {"id", "rev", "rot"},
             roworder |-> {"id", "rev", "rot"}, absent |-> {{}, {1}, {2, 7}, {1, 2, 3, 4}, {2, 3, 5, 8}},
             misscells |-> {{}, {<<1, "obs">>}, {<<2, "fcst">>, <<5, "obs">>}, {<<1, "x">>, <<4, "x">>}, {<<3, "lat">>}},
-            misstok |-> {"-999", "nan", "abc", "NA", "-999.0", "-1000", "-998.5"}, meta |-> 0..3]
+            misstok |-> {"-999", "nan", "abc", "NA", "-999.0", "-1000", "-998.5"}, meta |-> 0..5,
+            hasId |-> BOOLEAN, sites |-> {"far", "close"}]
 Fields == DOMAIN Options
 Vary1(b) == UNION {{[b EXCEPT ![f] = v] : v \in Options[f]} : f \in Fields}
 Vary2(b) == UNION {Vary1(x) : x \in Vary1(b)}
@@ -52,7 +54,7 @@ Miss(txt) == IF txt = "-999.0" THEN [m |-> FALSE, v |-> R(-999), txt |-> "-999.0
              ELSE [m |-> TRUE, v |-> NaN, txt |-> txt]
 CanonCols(x) ==
   (IF x.timefmt = "unixtime" THEN <<N_unixtime>> ELSE IF x.timefmt = "date" THEN <<N_date>> ELSE <<N_date, N_hour>>)
-  \o (IF x.hasLead THEN <<x.leadname>> ELSE <<>>) \o <<x.idname>>
+  \o (IF x.hasLead THEN <<x.leadname>> ELSE <<>>) \o (IF x.hasId THEN <<x.idname>> ELSE <<>>)
   \o (IF x.latlon THEN <<N_lat, N_lon>> ELSE <<>>) \o (IF x.hasElev THEN <<x.elevname>> ELSE <<>>)
   \o (IF x.hasObs THEN <<N_obs>> ELSE <<>>) \o (IF x.hasFcst THEN <<N_fcst>> ELSE <<>>) \o (IF x.hasPit THEN <<N_pit>> ELSE <<>>)
   \o ColSets[x.colset]
@@ -65,8 +67,11 @@ GridRows(x) ==     \* <<t, l, id>> in row-major order, minus the absent ones
   IN  [k \in DOMAIN keepIdx |-> <<keepIdx[k], all[keepIdx[k]]>>]
 WellFormed(x) == (x.hasObs \/ x.hasFcst \/ x.colset \in {2, 3, 5, 7, 8, 9, 10, 11})            \* the header needs at least one data column
                  /\ GridRows(x) # <<>>                                                  \* at least one data row (a file without rows is not in the domain)
-Gens(u) == {x \in (IF Universe = "quick" THEN Vary1(Base) \cup Vary1(Base2) \cup {[Base2 EXCEPT !.colset = k, !.colorder = o] : k \in 1..11, o \in {"id", "rev", "rot"}}
-                   ELSE Vary2(Base) \cup Vary2(Base2)) : WellFormed(x)}
+                 /\ (x.hasId \/ x.latlon)                                               \* sites need a name or a position
+\* files without a location column, in both layouts of the sites (far apart; a hundred-thousandth of a degree apart), every column set and row order
+NoIdGens == {[b EXCEPT !.hasId = FALSE, !.sites = s, !.colset = k, !.roworder = o] : b \in {Base, Base2}, s \in {"far", "close"}, k \in 1..11, o \in {"id", "rev", "rot"}}
+Gens(u) == {x \in (IF Universe = "quick" THEN Vary1(Base) \cup Vary1(Base2) \cup {[Base2 EXCEPT !.colset = k, !.colorder = o] : k \in 1..11, o \in {"id", "rev", "rot"}} \cup NoIdGens
+                   ELSE Vary2(Base) \cup Vary2(Base2) \cup NoIdGens \cup UNION {Vary1(y) : y \in {z \in NoIdGens : z.colset = 5}}) : WellFormed(x)}
 
 \* which abstract column kind a header name is, for the generator's own purposes
 KindOfName(nm) == IF nm \in {N_obs} THEN "obs" ELSE IF nm = N_fcst THEN "fcst" ELSE IF nm = N_lat THEN "lat" ELSE "x"
@@ -79,9 +84,9 @@ TokenFor(x, nm, n, c) ==       \* n = grid row number, c = <<t, l, id>>
          [] nm = N_hour -> NumTok(R(HourOf(c[1])))
          [] nm \in {N_leadtime, N_offset} -> NumTok(c[2])
          [] nm \in {N_location, N_id} -> NumTok(R(c[3]))
-         [] nm = N_lat -> NumTok(R(40 + c[3]))
-         [] nm = N_lon -> NumTok(Frac(-2 * c[3] - 1, 2))
-         [] nm \in {N_elev, N_altitude} -> NumTok(R(100 * c[3]))
+         [] nm = N_lat -> NumTok(IF x.sites = "far" THEN R(40 + c[3]) ELSE R(40))
+         [] nm = N_lon -> NumTok(IF x.sites = "far" THEN Frac(-2 * c[3] - 1, 2) ELSE Frac(20000 + (c[3] % 5), 100000))         \* 0.20002 and 0.20003: a hundred-thousandth of a degree apart (32-bit arithmetic bounds the digits)
+         [] nm \in {N_elev, N_altitude} -> NumTok(IF x.sites = "far" THEN R(100 * c[3]) ELSE R(100))
          [] nm = N_pit -> NumTok(Frac(Code(c[1], c[2], c[3]) % 8, 8))
          [] OTHER -> NumTok(Add(R(1000 * ColNo(x, nm) + Code(c[1], c[2], c[3])), IF ColNo(x, nm) % 2 = 0 THEN Frac(1, 4) ELSE Zero))
 RowsOf(x) == LET gr == GridRows(x)  h == Header(x)
@@ -90,6 +95,8 @@ RowsOf(x) == LET gr == GridRows(x)  h == Header(x)
 MetaOf(x) == IF x.meta = 0 THEN <<>>
              ELSE IF x.meta = 1 THEN <<[key |-> "variable", value |-> "Precip"], [key |-> "units", value |-> "mm"]>>
              ELSE IF x.meta = 2 THEN <<[key |-> "units", value |-> "m/s"], [key |-> "x0", value |-> "0"], [key |-> "variable", value |-> "Wind speed"], [key |-> "x1", value |-> "100"]>>
+             ELSE IF x.meta = 4 THEN <<[key |-> "variable", value |-> "RH"], [key |-> "units", value |-> "%"]>>        \* names that suggest a discrete mass, no x0 / x1 line
+             ELSE IF x.meta = 5 THEN <<[key |-> "variable", value |-> "Hourly precipitation"], [key |-> "x1", value |-> "50"]>>
              ELSE <<[key |-> "variable", value |-> "T"], [key |-> "variable", value |-> "Temperature"]>>
 FileOf(x) == [meta |-> MetaOf(x), header |-> Header(x), rows |-> RowsOf(x)]
 
@@ -109,7 +116,8 @@ InputJ(I) == [times |-> I.times, leads |-> [k \in DOMAIN I.leads |-> J(I.leads[k
               cdf |-> ByNumJ(I.cdf), x |-> ByNumJ(I.x), ens |-> ByNumJ(I.ens), other |-> ByNameJ(I.other), variable |-> I.variable]
 F == FileOf(g)
 Emit == PrintT(ToJson([meta |-> F.meta, header |-> F.header, rows |-> [r \in DOMAIN F.rows |-> [k \in DOMAIN F.header |-> TokJ(F.rows[r][k])]],
-                       gen |-> [timefmt |-> g.timefmt, colorder |-> g.colorder, roworder |-> g.roworder, misstok |-> g.misstok, absent |-> SetToSeq(g.absent)],
+                       gen |-> [timefmt |-> g.timefmt, colorder |-> g.colorder, roworder |-> g.roworder, misstok |-> g.misstok, absent |-> SetToSeq(g.absent),
+                               hasId |-> g.hasId, sites |-> g.sites],
                        input |-> InputJ(Parse(F))]))
 Init == g \in Gens(0) /\ phase = "file"
 Evaluate == phase = "file" /\ phase' = "emitted" /\ g' = g /\ Emit
@@ -119,19 +127,22 @@ Spec == Init /\ [][Next]_vars
 InvColumnOrder == ColumnOrderInvariant(F)
 InvRowOrder == RowOrderInvariant(F)
 InvLoopRefines == LoopRefinesParse(F)
+InvNoMass == NoMassWithoutLine(F)
 \* parse o encode = identity on what the generator intended (spot facts)
 InvIntended ==
   LET I == Parse(F) IN
   /\ Elems(I.times) = {c[2][1] : c \in Elems(GridRows(g))}
-  /\ Elems(I.ids) = {c[2][3] : c \in Elems(GridRows(g))}
+  /\ (g.hasId => Elems(I.ids) = {c[2][3] : c \in Elems(GridRows(g))})
+  /\ (~g.hasId /\ g.misscells # {<<3, "lat">>} => Elems(I.ids) = 1..Cardinality({c[2][3] : c \in Elems(GridRows(g))}))        \* id-less: one site per position
   /\ I.hasObs = g.hasObs /\ I.hasFcst = g.hasFcst /\ I.hasPit = g.hasPit
   /\ Cardinality(I.thresholds) + Cardinality(I.quantiles) + Cardinality(I.members) + Cardinality(I.others) = Len(ColSets[g.colset])
   /\ (g.colset = 11 => I.others = {N_x, N_time, N_cdf, N_threshold, N_quantile})
   /\ (g.colset = 6 => I.others = {N_pop, N_px, N_e1x} /\ I.thresholds = {R(-1)})
-  /\ (g.hasObs => \A c \in DOMAIN I.obs : IsNaN(I.obs[c]) \/ I.obs[c] \in {R(-1000), Frac(-1997, 2)}
+  /\ (g.hasObs /\ g.hasId => \A c \in DOMAIN I.obs : IsNaN(I.obs[c]) \/ I.obs[c] \in {R(-1000), Frac(-1997, 2)}
                                               \/ ((I.obs[c][1] \div I.obs[c][2]) % 1000) = Code(c[1], c[2], c[3]))
 \* ---- witnesses against vacuity (tools/vacuity.py) ----
 W_ReservedNames == ~(g.colset = 11)
+W_NoIdCloseSites == ~(~g.hasId /\ g.sites = "close" /\ Len(Parse(F).ids) = 2)
 W_NoLeadingDigit == ~(g.colset = 8)
 W_MixedOrderThresholds == ~(g.colset = 9 /\ g.colorder # "id")
 =============================================================================
